@@ -188,8 +188,19 @@ func init() {
 
 		// trigger
 		rl := &rateLog{}
+		slowIdx, slowMs := -1, 0
+		if v, ok := p["sloweval"]; ok { // <index>:<ms> — the index-th evaluation takes that long
+			f := strings.SplitN(v, ":", 2)
+			slowIdx, slowMs = atoi(f[0]), atoi(f[1])
+		}
 		wrap := func(fn api.RateFunction) api.RateFunction {
 			return func(t time.Time) int {
+				rl.mu.Lock()
+				idx := len(rl.times)
+				rl.mu.Unlock()
+				if idx == slowIdx {
+					time.Sleep(time.Duration(slowMs) * time.Millisecond)
+				}
 				v := fn(t)
 				rl.mu.Lock()
 				rl.times = append(rl.times, time.Now())
